@@ -22,7 +22,7 @@ for i in ids:
     caught_by = None
     checks_run = []
     for chk in [prop] + EXTRA.get(i, []):
-        p = subprocess.run([f'{V}/tools/mutant.sh', i, f'patch:{V}/seeded/{i}/patch.diff', chk], capture_output=True, text=True,
+        p = subprocess.run([f'{V}/tools/mutant.sh', i, f'patch:{V}/seeded/{i}/patch.diff', chk], capture_output=True, text=True, errors='replace',
                            env=dict(os.environ, MUTANT_ARGS='--no-legs'))
         out = p.stdout + p.stderr
         verdict = 'VIOLATED' if re.search(r'^VIOLATED', out, re.M) else ('HELD' if re.search(r'^HELD', out, re.M) else 'INCONCLUSIVE')
